@@ -4,14 +4,26 @@
 (* is checked against the contracts inside the action).                    *)
 EXTENDS GitPush, Json
 
-CONSTANTS NB, Par, OtherOnly, MaxSteps, MaxTerms, Emit, Bug
+CONSTANTS NB, Par, OtherOnly, MaxSteps, MaxTerms, Emit, Bug,
+          FillChoices   \* many-refs dimension: set of [n |-> number of filler bookmarks, place |-> "after"|"before"]
 
-VARIABLES st, okStep, okLost, unseen, n, hist
-vars == <<st, okStep, okLost, unseen, n, hist>>
-View == <<st, okStep, okLost, unseen, n>>
+(* fill: the filler bookmarks pushed together with the modelled ones.  They  *)
+(* are always in sync with the remote and every Push moves all of them, so  *)
+(* they never diverge and are not part of the state machine: a behaviour    *)
+(* only carries how many there are and whether their names sort before the  *)
+(* modelled bookmarks ("after": the modelled refs come after position n in  *)
+(* the push) or after them.  The contracts are unchanged and are judged per *)
+(* modelled bookmark.                                                       *)
+VARIABLES st, okStep, okLost, unseen, n, hist, fill
+vars == <<st, okStep, okLost, unseen, n, hist, fill>>
+View == <<st, okStep, okLost, unseen, n, fill>>
 
 MC_Par2 == <<<<>>, <<1>>>>
 MC_Par3 == <<<<>>, <<1>>, <<1>>>>
+MC_Chain3 == <<<<>>, <<1>>, <<2>>>>               \* 1 <- 2 <- 3: fast-forwards of an unseen position
+MC_Fill0 == {[n |-> 0, place |-> "after"]}
+MC_FillMany == {[n |-> 70, place |-> "after"], [n |-> 140, place |-> "after"],
+                [n |-> 70, place |-> "before"], [n |-> 140, place |-> "before"]}
 MC_Par4 == <<<<>>, <<1>>, <<2>>, <<1>>>>
 
 Commits == DOMAIN Par
@@ -41,9 +53,10 @@ Init ==
   /\ okStep = TRUE /\ okLost = TRUE
   /\ unseen = [b \in B |-> FALSE]
   /\ n = 0 /\ hist = <<>>
+  /\ fill \in FillChoices
 
 Post(s) == [local |-> s.local, track |-> s.track, remote |-> s.remote, known |-> s.known]
-Behaviour(h) == [par |-> Par, otheronly |-> OtherOnly, nb |-> NB, steps |-> h]
+Behaviour(h) == [par |-> Par, otheronly |-> OtherOnly, nb |-> NB, fill |-> fill, steps |-> h]
 Log(a, b, c, S) == hist' = Append(hist, [a |-> a, b |-> b, c |-> c, set |-> S, post |-> Post(st')])
 
 User(a, b, c, new) ==
@@ -74,6 +87,9 @@ Push(S) ==
   /\ okLost' = \A b \in B : unseen[b] => st'.remote[b] = st.remote[b]
   /\ unseen' = [b \in B |-> unseen[b] /\ st'.track[b] # st'.remote[b]]
   /\ Log("Push", 0, 0, S)
+  (* generator for the many-refs dimension: pushes of a bookmark whose remote branch is not where jj recorded it *)
+  /\ (Emit = "stale" /\ (\E b \in PushAsked(st, S) : st.remote[b] # st.track[b])
+        => PrintT(<<"REPLAY", ToJson(Behaviour(hist'))>>))
 
 Step ==
   \/ \E b \in B, c \in Commits : JjSet(b, c) \/ OtherSet(b, c)
@@ -85,6 +101,7 @@ Next ==
   /\ (MaxSteps = 0 \/ n < MaxSteps)
   /\ Step
   /\ n' = IF MaxSteps = 0 THEN 0 ELSE n + 1
+  /\ UNCHANGED fill
   /\ (Emit = "all" => PrintT(<<"REPLAY", ToJson(Behaviour(hist'))>>))
 
 Spec == Init /\ [][Next]_vars
